@@ -58,3 +58,20 @@ theorem C04_allTrue (val : Nat → Int) (cs : List Crit) (t : Tree) (p : Nat) (v
     allMerge val cs t p v = true ↔ ∀ c ∈ cs, c.atMerge val t v = true := by simp [allMerge]
 theorem C04_seeds_exact (val : Nat → Int) (ps : List Nat) (t : Tree) (v : Int) :
     (Crit.seeds ps).atMerge val t v = true ↔ ∃ p ∈ t.pixels, p ∈ ps := by simp [Crit.atMerge]
+
+/-! ## the order hypotheses are what the driver checks on every implementation trace
+
+The theorems of C01–C05 assume `order.Nodup`, `order.Pairwise (val b ≤ val a)` and that the
+processed pixels are the pixels above the threshold.  The model driver evaluates the boolean
+functions `nodupB`, `sortedDesc` and `sortNat order = kept` on the order recorded by the hook for
+every case; these theorems say the boolean checks mean exactly the hypotheses. -/
+
+theorem C04_sorted_check_sound (val : Nat → Int) (l : List Nat) :
+    sortedDesc val l = true ↔ l.Pairwise (fun a b => val b ≤ val a) := P31.sortedDesc_iff val l
+theorem C04_nodup_check_sound (l : List Nat) : nodupB l = true ↔ l.Nodup := P31.nodupB_iff l
+theorem C04_cover_check_sound (order kept : List Nat) (hk : kept.Pairwise (· < ·)) (hnd : order.Nodup) :
+    sortNat order = kept ↔ (∀ p, p ∈ order ↔ p ∈ kept) := P31.cover_iff order kept hk hnd
+/-- non-increasing + pairwise distinct values ⇒ strictly decreasing: the hypothesis of `C04_unique_of_distinct` -/
+theorem C04_strict_of_distinct (val : Nat → Int) (l : List Nat) (h : l.Pairwise (fun a b => val b ≤ val a))
+    (hd : ∀ a ∈ l, ∀ b ∈ l, val a = val b → a = b) (hnd : l.Nodup) : l.Pairwise (fun a b => val b < val a) :=
+  P31.strict_of_sorted_distinct val l h hd hnd
